@@ -179,6 +179,7 @@ def run(prop, tier, seed=0, replay=None):
             "discharged": len(ctx.obligations) - len(viol),
             "per_rule": per_rule,
             "bodies_analysed": len(ctx.bodies),
+            "bodies": sorted({"%s:%s" % (c, k) for c, k in ctx.bodies})[:400],
             "configurations": ctx.configs_used,
             "facts": {c: {"functions": fx.meta.get("n_fn"), "coroutines": fx.meta.get("n_coroutine"),
                           "blocks": fx.meta.get("n_blocks")} for c, fx in ctx._facts.items()},
@@ -195,6 +196,9 @@ def run(prop, tier, seed=0, replay=None):
     }
     with open(evidence_path, "w") as f:
         json.dump(ev, f, indent=1)
+    if os.environ.get("LPV_DUMP_OBS"):
+        with open(os.environ["LPV_DUMP_OBS"], "w") as f:
+            json.dump([{k: o[k] for k in ("rule", "key", "site", "ok")} for o in ctx.obligations], f)
     print("%s tier=%s obligations=%d discharged=%d known=%d violations=%d bodies=%d wall=%.1fs" % (
         prop, tier, len(ctx.obligations), len(ctx.obligations) - len(viol), len(old), len(new), len(ctx.bodies), time.time() - t0))
     return 1 if new else 0
